@@ -24,16 +24,16 @@ PROP = {
 }
 
 TEXT = {
-    "text": "Correspondence and oracle level (the Lean theorem modules for C12 are added by the render-model owner): every case "
-            "is a `render` case line answered by the Lean model and by the real engine; on the real engine's output an "
-            "independent reference environment interpreter (harness/ref_prog.go) checks every probe value: assign and capture "
-            "bind in one flat environment for everything rendered afterwards (after enclosing blocks, in later iterations, in "
-            "included files), a capture holds exactly its body's text and outputs nothing, a loop restores its variable and "
-            "forloop on normal exit and on break, an included file starts from a copy of the environment and its assignments do "
-            "not flow back; and the capture equivalence is checked as a metamorphic relation between two renders of the real "
-            "engine on every generated fragment.",
-    "design_ref": "DESIGN.md 6 C12",
-    "note": NOTE + "String/array filters and comparisons inside generated fragments are answered `unmodelled` by the model "
-                   "until those layers are linked.",
-    "technique": "model/implementation correspondence + independent reference oracle + metamorphic (capture equivalence) oracle",
+    "text": ('Theorems: after assign everything that follows runs with the variable bound to the value (assign_seq; the variable '
+              'map is one flat map threaded through the render), capture runs its body against a private buffer, binds exactly '
+              'the text and leaves output and trim state untouched (capture_seq, captureM_keeps_tw), a loop restores its variable '
+              "and forloop on normal end, break and continue (loop_restores), an include starts from the includer's current "
+              'variables and its assignments do not flow back (include_sees_vars, include_isolated). Tie: the `scope` stream '
+              'answers every case by the model and the real engine; an independent reference environment interpreter checks every '
+              'probe value on the real output, and the capture equivalence is checked as a metamorphic relation between two real '
+              'renders.'),
+    "design_ref": 'DESIGN.md 6 C12',
+    "note": NOTE + ('The capture equivalence (capturing then printing = rendering in place) is checked dynamically, not yet a theorem.'),
+    "technique": ('Lean 4 proof (state-threading lemmas on the render monad) + model/implementation correspondence + independent '
+              'reference and metamorphic oracle'),
 }
